@@ -1,7 +1,8 @@
 /* C19 - contracts of AutomationMgr methods, stated over the harness view of the manager (harness/C19/c19_common.h).
  *
  * setSlot(i, v)   [the only callee that is replaced by its contract]
- *   requires  the manager is well formed (nslots slots, per_slot automations each)
+ *   requires  the manager is well formed (nslots slots, per_slot automations each); 0 <= i < nslots is what the
+ *             replaced call sites need (asserted there); i = -1, nslots..6, INT_MIN, INT_MAX are checked as well
  *   assigns   slots[i].current_state, and what the recorder sees (messages built / emitted)
  *   ensures   i out of range: nothing changes, nothing is emitted;
  *             i in range: slots[i].current_state == v; exactly one message is built for every sub-automation j of
@@ -102,8 +103,8 @@ static void c19_check_setSlot_contract(const struct c19_deep *pre, const struct 
 /* the contract above as the definition of the callee */
 void AutomationMgr_setSlot(struct AutomationMgr *self, int slot_id, float value)
 {
-    if(slot_id >= self->nslots || slot_id < 0)
-        return;
+    /* requires: the contract is proved (and used) for the slot indices handleMidi can pass */
+    V_ASSERT(slot_id >= 0 && slot_id < self->nslots, "C19 setSlot contract precondition: 0 <= slot_id < nslots at the call site");
     for(int j = 0; j < self->per_slot; j++) {
         const struct Automation *a = &self->slots[slot_id].automations[j];
         if(a->used && c19_known_type(a->param_type)) {
